@@ -275,9 +275,22 @@ def run_case(case, wd):
             ConfigInformation.fromParameters(json.loads(json.dumps(objects)), as_instance=True, discard_id=True)
         finally:
             ConfigInformation.load_objects = staticmethod(orig_load)
+        captured7 = dict(captured["objects"])
+        trace7 = list(_schema2.TRACE)
+        # ... and the same list returned instead of executed (configuration mode, return_tasks=True)
+        try:
+            ConfigInformation.load_objects = staticmethod(_capture)
+            r8 = ConfigInformation.fromParameters(json.loads(json.dumps(objects)), as_instance=False, return_tasks=True,
+                                                  discard_id=True)
+            back8 = {id(v): {id(o): i for i, o in enumerate(b.allobjs)}.get(k, -1) for k, v in captured["objects"].items()}
+            res["returned_tasks"] = [back8.get(id(t), -2) for t in r8[1]] if isinstance(r8, tuple) and len(r8) == 2 else "shape"
+        except Exception as e:  # noqa
+            res["returned_tasks"] = "exc:" + type(e).__name__
+        finally:
+            ConfigInformation.load_objects = staticmethod(orig_load)
         idx7 = {id(o): i for i, o in enumerate(b.allobjs)}
-        back = {id(v): idx7.get(k, -1) for k, v in captured["objects"].items()}
-        res["executed"] = [back.get(id(t), -2) for t in _schema2.TRACE]
+        back = {id(v): idx7.get(k, -1) for k, v in captured7.items()}
+        res["executed"] = [back.get(id(t), -2) for t in trace7]
     except Exception as e:  # noqa
         res["executed_error"] = type(e).__name__ + ":" + str(e)[:200]
     try:
